@@ -285,6 +285,7 @@ func sourcesFamily(files []string) string {
 	sb.WriteString(header(strings.Join(files, " ")))
 	sb.WriteString("import Golem.Model.SourceDSL\nset_option linter.unusedVariables false\n")
 	sb.WriteString("namespace Golem.Gen.PipeSrc\nopen Golem.Go Golem.Model Golem.Model.DSLT\n\nvariable {σ α β ε : Type}\n\n")
+	currentFile = files[0]
 	sb.WriteString(catchFamily(parse(files[0])))
 	f := parse(files[1])
 	currentFile = files[1]
